@@ -73,6 +73,7 @@ type PtrV struct {
 	Ref *Ref // nil when pointer is opaque/unknown
 	Nil *Term
 	ID  *Term // BV64 identity for opaque comparisons (may be nil)
+	raw *addrInfo // set for unsafe.SliceData results
 }
 
 type SliceV struct {
@@ -300,3 +301,10 @@ type unsupportedErr struct{ msg string }
 
 func unsupported(msg string) unsupportedErr { return unsupportedErr{msg} }
 func (u unsupportedErr) Error() string      { return "unsupported: " + u.msg }
+
+// addrInfo ties a symbolic machine address (uintptr) to an element of a byte array.
+type addrInfo struct {
+	base   *Ref  // the array
+	idx    *Term // element index (absolute, within the backing array)
+	lo, hi *Term // the slice's extent within the backing array [lo, hi)
+}
